@@ -1,16 +1,16 @@
 CONSTANTS
-  Hosts <- H2
+  Hosts <- H1
   HostPort <- MCHostPort
   SPorts <- F_SPorts
   Dsts <- F_Dsts
   Remotes <- R1
   Locals <- MCLocals
-  DPorts <- F_DPorts
+  DPorts <- DP53
   Protos <- F_Protos
   Rnds <- F_Rnds
-  InPorts <- F_InPorts
+  InPorts <- S1
   GwMacs <- GW2
-  Vias <- Via3
+  Vias <- Via2
   HasDns = TRUE
   Strict = TRUE
   Unit = 30
@@ -38,6 +38,6 @@ INVARIANT TimerAlive
 PROPERTY RemovedOnlyIdle
 PROPERTY PortFreedOnlyByExpiry
 PROPERTY PortStable
-CONSTRAINT MaxMaps2
+CONSTRAINT MaxMaps1
 CONSTRAINT MaxBlocked1
 CHECK_DEADLOCK FALSE
